@@ -331,3 +331,53 @@ def respell(atoms, style=0, seqnames=None, only=None):
             b["name"] = alts[min(style, len(alts) - 1)]
         out.append(b)
     return out
+
+
+def carbon_contact(rng, x, seq=None, pos=1, parent=None, axial=False):
+    """ALA-x-ALA (heavy atoms) and, as chain B, one alanine whose CB lies close to a heavy atom of x that will carry
+    hydrogens, on the side those hydrogens will point to (a non-acceptor contact: the debumper has to turn the group).
+    Returns (chains, description) or None when no clean placement was found."""
+    seq = seq or ["ALA", x, "ALA"]
+    full = peptide(seq, hydrogens=True)
+    if rng.random() < 0.75:
+        # another side-chain conformation (the extended template one has contacts of its own)
+        randomize_sidechains(full, rng)
+    heavy = [dict(a) for a in full if not a["name"].startswith("H")]
+    hs = [a for a in full if a["name"].startswith("H") and a["res_index"] == pos and a["name"] not in ("H", "HA", "HA2", "HA3")]
+    if not hs:
+        return None
+    mine = [a for a in heavy if a["res_index"] == pos]
+    par = {}
+    for h in hs:
+        p = min(mine, key=lambda a: np.linalg.norm(a["xyz"] - h["xyz"]))
+        par.setdefault(p["name"], []).append(h)
+    for _ in range(30):
+        pn = parent if parent in par else rng.choice(sorted(par))
+        p = next(a for a in mine if a["name"] == pn)
+        d = sum((h["xyz"] - p["xyz"]) for h in par[pn])
+        jitter = 0.15
+        if axial and np.linalg.norm(d) >= 0.2:
+            # on the axis of the group and close: every hydrogen of the group is in contact, and only those
+            jitter = 0.06
+        elif np.linalg.norm(d) < 0.2 or rng.random() < 0.6:
+            # towards one of the hydrogens (off the axis of the group: turning the group changes the contact)
+            d = rng.choice(par[pn])["xyz"] - p["xyz"]
+            jitter = 0.35
+        d = d / np.linalg.norm(d) + jitter * np.array([rng.uniform(-1, 1) for _ in range(3)])
+        d = d / np.linalg.norm(d)
+        target = p["xyz"] + (rng.uniform(1.3, 1.47) if axial else rng.uniform(1.35, 2.1)) * d
+        ala = peptide(["ALA"], chain="B", start=1)
+        cb = next(a for a in ala if a["name"] == "CB")["xyz"]
+        ca = next(a for a in ala if a["name"] == "CA")["xyz"]
+        R = _align(ca - cb, d)
+        ala = transform(ala, R=R)
+        cb = next(a for a in ala if a["name"] == "CB")["xyz"]
+        ala = transform(ala, t=target - cb)
+        ok = all(np.linalg.norm(a["xyz"] - b["xyz"]) > (1.3 if (a["name"] == "CB" and b is p) else 2.3) for a in ala for b in heavy)
+        if ok:
+            return [heavy, ala], f"carbon contact {'-'.join(seq)} {pn}..CB {np.linalg.norm(target - p['xyz']):.2f} A"
+    return None
+
+
+POLAR_PARENTS = {"LYS": ["NZ"], "ARG": ["NH1", "NH2", "NE"], "SER": ["OG"], "THR": ["OG1"], "TYR": ["OH"], "ASN": ["ND2"], "GLN": ["NE2"],
+                 "HIS": ["ND1", "NE2"], "CYS": ["SG"], "TRP": ["NE1"], "MET": ["CE"], "ILE": ["CD1"], "LEU": ["CD1", "CD2"], "VAL": ["CG1"]}
